@@ -180,6 +180,28 @@ func wrapIfUncoded(err error) error {
 	return NewError(CodeUnknown, maybeCodedErr)
 }
 
+// wrapIfContextDone applies CodeCanceled or CodeDeadlineExceeded to errors met
+// while the context is done: transports report a cancellation in many shapes
+// (closed pipes, reset streams, closed connections), but the cause is the
+// context. It leaves already-coded errors unchanged.
+func wrapIfContextDone(ctx context.Context, err error) error {
+	if err == nil {
+		return nil
+	}
+	err = wrapIfContextError(err)
+	if _, ok := asError(err); ok {
+		return err
+	}
+	ctxErr := ctx.Err()
+	if errors.Is(ctxErr, context.Canceled) {
+		return NewError(CodeCanceled, err)
+	}
+	if errors.Is(ctxErr, context.DeadlineExceeded) {
+		return NewError(CodeDeadlineExceeded, err)
+	}
+	return err
+}
+
 // wrapIfContextError applies CodeCanceled or CodeDeadlineExceeded to Go's
 // context.Canceled and context.DeadlineExceeded errors, but only if they
 // haven't already been wrapped.
